@@ -155,6 +155,13 @@ func (c *Ctx) staticCallSites(fn *ssa.Function) (sites []ssa.CallInstruction, ok
 				if ci, isCall := in.(ssa.CallInstruction); isCall {
 					if ci.Common().StaticCallee() == fn {
 						sites = append(sites, ci)
+					} else if fn.Parent() != nil && !ci.Common().IsInvoke() && ci.Common().StaticCallee() == nil {
+						// a local closure called through the variable it was assigned to (also from a nested literal)
+						if x := strip(c.E(ci.Common().Value)); x != nil && x.Op == "closure" {
+							if mc, isMC := x.V.(*ssa.MakeClosure); isMC && mc.Fn == ssa.Value(fn) {
+								sites = append(sites, ci)
+							}
+						}
 					}
 					// used as a value (argument / stored): callers unknown
 					for _, a := range ci.Common().Args {
